@@ -96,6 +96,15 @@ fn forged_child(chain: &SynChain, child_no: u64, inflate: &U256) -> packed::Veri
     honest.as_builder().header(header).extension(Pack::pack(&Some(ext))).parent_chain_root(root).build()
 }
 
+/// the genuine child of `child_no - 1` with nothing changed but its NUMBER (raised by k): still names the proven header as its parent,
+/// still commits to the genuine chain root - but it is not the next block, and nothing short of a proof may make it the tip
+fn child_number_raised(chain: &SynChain, child_no: u64, k: u64) -> packed::VerifiableHeader {
+    let honest = chain.packed_vheader(child_no);
+    let raw = honest.header().raw().as_builder().number((child_no + k).pack()).build();
+    let header = honest.header().as_builder().raw(raw).build();
+    honest.as_builder().header(header).build()
+}
+
 struct PeerSim {
     id: PeerIndex,
     chain: usize,     // index into chains
@@ -171,7 +180,7 @@ fn history(out: &mut Out, rng: &mut Rng, consensus: &Consensus, idx: u64, honest
         vec![(1, 0, 0), (1, 4, 0), (1, 101, 0), (1, 101, 0), (0, 0, 0), (0, 4, 0), (0, 100, 0), (0, 100, 0), (0, 4, 1), (0, 4, 1), (1, 4, 3), (1, 2, 0), (1, 101, 0), (1, 101, 0)].into()
     } else if young {
         // one honest peer: proven at 2..4, then the chain grows by 2, 3, 1 (child fast path), 2 with a proof each time
-        vec![(0, 0, 0), (0, 4, 0), (0, 100, 0), (0, 100, 0), (0, 4, 2), (0, 2, 0), (0, 100, 0), (0, 100, 0), (0, 4, 3), (0, 2, 0), (0, 100, 0), (0, 100, 0),
+        vec![(0, 0, 0), (0, 4, 0), (0, 100, 0), (0, 100, 0), (0, 4, 2), (0, 2, 0), (0, 100, 0), (0, 100, 0), (0, 4, 777), (0, 4, 3), (0, 2, 0), (0, 100, 0), (0, 100, 0),
              (0, 4, 1), (0, 2, 0), (0, 4, 2), (0, 2, 0), (0, 100, 0), (0, 100, 0)].into()
     } else if lagfork {
         vec![(1, 0, 0), (1, 4, 0), (1, 101, 0), (1, 101, 0), (0, 0, 0), (0, 4, 0), (0, 100, 0), (0, 100, 0), (1, 200, 0), (1, 4, 0), (1, 2, 0), (1, 101, 0), (1, 101, 0)].into()
@@ -250,22 +259,29 @@ fn history(out: &mut Out, rng: &mut Rng, consensus: &Consensus, idx: u64, honest
                 // announce a last state
                 let ch = chains[sims[k].chain].clone();
                 let first_announce = c.state(pid).map(|s| s.get_last_state().is_none()).unwrap_or(true);
-                let grow = if let Some((_, _, fg)) = forced { fg } else if closing || deep || (competing && first_announce) { 0 } else if competing { 1 } else { match rng.below(5) { 0 => 0, 1 | 2 => 1, 3 => rng.range(2, last_n + 2), _ => rng.range(2, 30) } };
+                // (scripted strata: grow 777 = the peer announces the genuine child of its proven header with the NUMBER raised)
+                let raised = matches!(forced, Some((_, _, 777)));
+                let grow = if raised { 0 } else if let Some((_, _, fg)) = forced { fg } else if closing || deep || (competing && first_announce) { 0 } else if competing { 1 } else { match rng.below(5) { 0 => 0, 1 | 2 => 1, 3 => rng.range(2, last_n + 2), _ => rng.range(2, 30) } };
                 sims[k].height = (sims[k].height + grow).min(ch.tip());
                 let mut what = "announce";
-                let msg_vh: packed::VerifiableHeader = if sims[k].honest || rng.chance(2, 3) {
+                let proven_no = c.state(pid).and_then(|s| s.get_prove_state().map(|p| p.get_last_header().header().number()));
+                let msg_vh: packed::VerifiableHeader = if raised && proven_no.map(|pn| pn < ch.tip()).unwrap_or(false) {
+                    what = "announce-child-number-raised";
+                    child_number_raised(&ch, proven_no.unwrap() + 1, rng.range(1, 9))
+                } else if sims[k].honest || rng.chance(2, 3) {
                     ch.packed_vheader(sims[k].height)
                 } else {
-                    match rng.below(4) {
+                    match rng.below(6) {
                         0 => { what = "announce-stale"; ch.packed_vheader(rng.range(1, sims[k].height)) }
                         1 => { what = "announce-other-chain"; let o = &chains[1 - sims[k].chain]; o.packed_vheader(rng.range(1, o.tip())) }
-                        2 => {
+                        2 | 3 | 4 => {
                             // a forged child of the header this peer has PROVEN (child fast path)
                             let proven = c.state(pid).and_then(|s| s.get_prove_state().map(|p| p.get_last_header().header().number()));
                             match proven {
                                 Some(pn) if pn < ch.tip() && ch.on_chain(pn, &c.state(pid).unwrap().get_prove_state().unwrap().get_last_header().header().hash()) => {
+                                    if rng.chance(1, 2) { what = "announce-child-number-raised"; child_number_raised(&ch, pn + 1, rng.range(1, 9)) } else {
                                     what = "announce-forged-child";
-                                    forged_child(&ch, pn + 1, &(U256::one() << (rng.range(1, 200) as u32)))
+                                    forged_child(&ch, pn + 1, &(U256::one() << (rng.range(1, 200) as u32))) }
                                 }
                                 _ => { what = "announce-stale"; ch.packed_vheader(rng.range(1, sims[k].height)) }
                             }
